@@ -41,8 +41,15 @@ def mon_backoff(tr, sc):
     an error that needs a reconnect, the maximum for a refusal, doubling on consecutive failures, blocking for ErrClosed"""
     out = []
     last, prev_wait, fails = None, None, 0
+    lo, hi = 3000, 20000          # the harness's default Config
     for i, (op, lines) in enumerate(tr):
         f = op.split()
+        if f and f[0] == "rwait":
+            # as documented: a zero minimum means one second, a negative one no wait; the maximum is raised to the effective minimum
+            mn, mx = int(f[1]), int(f[2])
+            mn = 10 ** 9 if mn == 0 else max(mn, 0)
+            mx = max(mx, mn)
+            lo, hi = mn // 10 ** 6, mx // 10 ** 6
         for l in lines:
             if l.startswith("rs err "):
                 last = set(l.split()[2].split("+"))
@@ -62,12 +69,12 @@ def mon_backoff(tr, sc):
                 continue
             ms = int(w[:-2])
             if any(t.startswith("refused") for t in last):
-                if ms != 20000:
-                    out.append(("backoff:refused", "ReadBackoff after a refused connect waits %d ms, ReconnectWaitMax is 20000 ms" % ms))
+                if ms != hi:
+                    out.append(("backoff:refused", "ReadBackoff after a refused connect waits %d ms, ReconnectWaitMax is %d ms" % (ms, hi)))
             elif last & {"store", "corrupt", "other"}:
                 pass        # the connection may still be there (Persistence error): fixed 1 s
-            elif not (3000 <= ms <= 20000):
-                out.append(("backoff:bounds", "ReadBackoff after `%s` waits %d ms, outside [ReconnectWaitMin 3000, ReconnectWaitMax 20000]" % ("+".join(sorted(last)), ms)))
+            elif not (lo <= ms <= hi):
+                out.append(("backoff:bounds", "ReadBackoff after `%s` waits %d ms, outside [ReconnectWaitMin %d, ReconnectWaitMax %d]" % ("+".join(sorted(last)), ms, lo, hi)))
     return out
 
 
